@@ -89,7 +89,31 @@ func (ex *Exec) strLen(st *State, s StrV) *Term {
 		case "hex":
 			n = bvBin("bvadd", n, bvBin("bvshl", g.args[0].(SliceSnap).len, u64(1)))
 		default:
-			fail("len of opaque string segment %s", g.op)
+			// opaque rendering: its length is some value within the bounds the rendering
+			// function guarantees; the same rendering has the same length (memoised per scope)
+			lo, hi := uint64(0), uint64(1<<20)
+			switch g.op {
+			case "dec":
+				lo, hi = 1, 20
+			case "float":
+				lo, hi = 1, 32
+			case "ipstr":
+				lo, hi = 2, 45
+			case "boolstr":
+				lo, hi = 4, 5
+			case "jsonstr":
+				lo = 2
+			}
+			key := "len:" + describe(StrV{segs: []Seg{g}})
+			var l *Term
+			if v, ok := ex.sol.ScopedGet(key); ok {
+				l = v.(*Term)
+			} else {
+				l = ex.fresh("slen", 64)
+				ex.sol.Assert(tAnd(bvCmp("bvuge", l, u64(int64(lo))), bvCmp("bvule", l, u64(int64(hi)))))
+				ex.sol.ScopedPut(key, l)
+			}
+			n = bvBin("bvadd", n, l)
 		}
 	}
 	return n
@@ -301,7 +325,26 @@ func (ex *Exec) setBufRope(st *State, p PtrV, r StrV) {
 	st.store(p, StructV{f: nf})
 }
 
-func (ex *Exec) ropeOf(st *State, r RopeRef) StrV { return ex.bufRope(st, r.buf) }
+// ropeOf is what reading the slice returned by Bytes() yields now: its own content as long as
+// the buffer has only been appended to since; after a Reset the slice still has its old
+// length but its octets are whatever was written since (modelled as an opaque "stale"
+// segment that equals nothing else).
+func (ex *Exec) ropeOf(st *State, r RopeRef) StrV {
+	if ex.bufGen(st, r.buf) == r.gen {
+		return r.snap
+	}
+	return StrV{segs: []Seg{{op: "stale-after-reset", args: []Value{r.snap, ex.bufRope(st, r.buf)}}}}
+}
+
+func (ex *Exec) bufGen(st *State, p PtrV) uint64 {
+	s := st.load(p).(StructV)
+	if len(s.f) > 1 {
+		if t, ok := s.f[1].(*Term); ok && t.isConst {
+			return t.v
+		}
+	}
+	return 0
+}
 
 func bufRecv(ex *Exec, st *State, args []Value, at ssa.Instruction) (PtrV, bool) {
 	p := args[0].(PtrV)
@@ -367,6 +410,12 @@ func init() {
 			return false
 		}
 		ex.setBufRope(st, p, StrV{})
+		// new generation: slices handed out by Bytes() before now are stale
+		if sv := st.load(p).(StructV); len(sv.f) > 1 {
+			nf := append([]Value(nil), sv.f...)
+			nf[1] = u64(int64(ex.bufGen(st, p) + 1))
+			st.store(p, StructV{f: nf})
+		}
 		setRes(st, res, TupleV{})
 		return true
 	})
@@ -375,7 +424,7 @@ func init() {
 		if !ok {
 			return false
 		}
-		setRes(st, res, RopeRef{buf: p, n: -1})
+		setRes(st, res, RopeRef{buf: p, n: -1, snap: ex.bufRope(st, p), gen: ex.bufGen(st, p)})
 		return true
 	})
 	reg("(*bytes.Buffer).String", func(ex *Exec, st *State, fv FuncV, args []Value, res ssa.Value, at ssa.Instruction) bool {
